@@ -261,7 +261,7 @@ class C16(ModelCheck):
     ]
 
     def n_random(self, tier):
-        return {"quick": 1200, "thorough": 40000}[tier]
+        return {"quick": 2400, "thorough": 40000}[tier]
 
     def gen(self, R):
         return gen(R)
